@@ -34,11 +34,12 @@ def mc_module(name, thorough):
              '        badelem |-> IF mid = "none" THEN "pool" ELSE "mid",\n'
              '        cancellable |-> (IF hf \\in {"trio", "asyncio"} THEN {"head"} ELSE {}) \\cup (IF mid = "svc" THEN {"mid"} ELSE {})]')
     L.append(
-        'MCInit == \\E k \\in {"yaml", "python", "badext"}, e \\in {"none", "syntax", "dangling", "nopipeline", "ctor", "unknowntag", "pyraises", "emptypipeline", "scalarpipeline"},\n'
+        'MCInit == \\E k \\in {"yaml", "python", "badext"}, e \\in {"none", "syntax", "dangling", "nopipeline", "ctor", "unknowntag", "pyraises", "emptypipeline", "scalarpipeline", "multidoc"},\n'
         '            hf \\in Flavs \\cup {"none"}, mid \\in {"none", "plain", "svc"}, fl \\in {"-", "head", "mid"}, sg \\in BOOLEAN :\n'
         '    /\\ (k = "badext" => e = "none" /\\ fl = "-")\n'
         '    /\\ (k = "python" => e \\in {"none", "syntax", "pyraises", "ctor"})\n'
         '    /\\ (k = "yaml" => e # "pyraises")\n'
+        '    /\\ (e = "multidoc" => k = "yaml")\n'
         '    /\\ (e \\in {"emptypipeline", "scalarpipeline"} => k = "yaml" /\\ hf = "none" /\\ mid = "none")\n'
         '    /\\ (fl = "head" => hf # "none") /\\ (fl = "mid" => mid = "svc")\n'
         '    /\\ (fl # "-" => e = "none" /\\ ~sg)\n'
@@ -102,11 +103,15 @@ def render(case, d, seed):
                 if rnd.random() < 0.5 or c == "DBadCtor":
                     lines.append("  - !%s {%s}" % (c, args))
                 else:
-                    lines.append("  - {__type__: vp.fx_daemon.%s, %s}" % (c, args))
+                    # the factory may be a module attribute or an object nested in classes
+                    lines.append("  - {__type__: vp.fx_daemon.%s%s, %s}" % (rnd.choice(["", "", "Site.", "Site.Inner."]), c, args))
         else:
             lines.append("__config_test: {a: 1}")
         if err == "syntax":
             lines.append("  - [unbalanced")
+        if err == "multidoc":
+            # a second document: a configuration is ONE document
+            lines += ["---", rnd.choice(["pipeline: []", "extra: 1", "- 1"])]
         text = "\n".join(lines) + "\n"
         ext = ".yaml" if kind == "yaml" else rnd.choice([".json", ".txt", ".cfg", ""])
     else:
